@@ -30,6 +30,73 @@ LEVEL_TEXT = (
 READER_LIST = ["event_list"]
 
 
+REGISTRY = ("self._handlers", "self._emitter_for_watch")
+
+
+class DispatcherCfg(ThreadCfg):
+    """The dispatcher thread's body with lookups on the registry maps made fallible: a subscript load on a registry map that is not
+    a defaultdict raises KeyError unless, since the last callback into user code, the same key was found in the map."""
+
+    def __init__(self, P, total_maps: set[str]):
+        super().__init__(P, follow_attrs=False, no_inline={"dispatch", "join", "start", "queue_events"})
+        self.total_maps = total_maps
+
+    def raises(self, kind, text, node, st):
+        if kind != "subscript" or not st.evs or st.evs[-1].kind != "subscript":
+            return ()
+        c, k = st.evs[-1].extra.get("container"), st.evs[-1].extra.get("key")
+        if c not in REGISTRY or c in self.total_maps:
+            return ()
+        last_cb = max([i for i, e in enumerate(st.evs) if e.kind == "call" and re.search(r"\.(dispatch|on_\w+)$", e.extra.get("func", ""))], default=-1)
+        for e in st.evs[last_cb + 1 :]:
+            if e.kind == "cond" and e.extra.get("truth") is True and e.text == f"{k} in {c}":
+                return ()
+            if e.kind in ("setitem", "subscript") and e.extra.get("container") == c and e.extra.get("key") == k and e is not st.evs[-1]:
+                return ()  # an earlier successful access of the same key, no callback since
+        return ["KeyError"]
+
+
+def dispatcher_exception_flow(ctx, RDX, P) -> None:
+    init = P.find_method("BaseObserver", "__init__")
+    runf = P.find_method("BaseObserver", "run")
+    if init is None or runf is None:
+        raise AnalysisError("anchor vanished: BaseObserver.__init__ / run")
+    total = set()
+    for p in Enumerator(ThreadCfg(P, follow_attrs=False)).run(init, selfcls="BaseObserver"):
+        for e in p.evs:
+            if e.kind == "store" and e.extra.get("target") in REGISTRY and re.match(r"(collections\.)?defaultdict\(\w", e.extra.get("value", "")):
+                total.add(e.extra["target"])
+    ctx.extra["registry_maps_that_cannot_raise_on_lookup"] = sorted(total)
+    paths = Enumerator(DispatcherCfg(P, total)).run(runf, selfcls="BaseObserver")
+    ctx.count("dispatcher_paths", len(paths))
+    nsub = 0
+    seen = set()
+
+    def walk(ps):
+        nonlocal nsub
+        for p in ps:
+            for e in p.evs:
+                if e.kind == "subscript" and e.extra.get("container") in REGISTRY:
+                    nsub += 1
+                if e.kind == "loop":
+                    walk(e.extra["paths"])
+            if p.outcome[0] == "raise" and str(p.outcome[1]).startswith("KeyError"):
+                r = [e for e in p.evs if e.kind == "raised"]
+                if r and id(r[-1].node) not in seen:
+                    seen.add(id(r[-1].node))
+                    ctx.viol(
+                        RDX,
+                        f"BaseObserver dispatcher: {r[-1].extra.get('at', '')[:60]}",
+                        f"KeyError can escape the dispatcher thread: `{r[-1].extra.get('at', '')}` looks a key up in a plain dict with no membership test since the last callback "
+                        "(a handler that unschedules the watch from inside its callback removes the key): the observer thread dies and every watch of the observer goes silent",
+                        f"{runf.module.relpath}:{r[-1].line}",
+                    )
+
+    walk(paths)
+    if not seen:
+        ctx.ok(RDX, f"BaseObserver dispatcher: {nsub} registry lookups, none can raise", runf.loc, nontrivial=nsub > 0)
+
+
 def run(ctx) -> None:
     P = ctx.P
     from ..model import returned_name as _rn
@@ -52,6 +119,14 @@ def run(ctx) -> None:
         "DirDeletedEvent(watch.path), stops and returns before any diff (polling); the reader loop terminates on root DELETE_SELF and root IGNORED",
         floor=4,
     )
+    RDX = ctx.rule(
+        "C07/dispatcher-exception-flow",
+        "no KeyError from a lookup on the observer's registry maps escapes the dispatcher thread's body (EventDispatcher.run -> "
+        "dispatch_events): a lookup on a map that is not a defaultdict is made under a membership test of the same key with no "
+        "callback in between (a handler may unschedule its own watch from inside the callback), or through .get",
+        floor=1,
+    )
+    dispatcher_exception_flow(ctx, RDX, P)
     RS = ctx.rule("C07/swallow-is-local", "an absorbed add-watch failure keeps the record that triggered it (the record is appended on every path that absorbs a failure)", floor=1)
 
     # ---------------------------------------------------------------- (a) reader exception flow
@@ -214,6 +289,15 @@ def run(ctx) -> None:
                 m_ = re.fullmatch(r"(\w+)(@after\w+)?", cs[-1].text)
                 if m_:
                     flagvars.add(m_.group(1))
+    # a flag that receives its value, after the hand-over loop, from another local set inside that loop (e.g. the result flag of an
+    # `any([...])` over the hand-overs) makes that local a termination flag as well
+    for _ in range(3):
+        for b in W.extra["paths"]:
+            for e in b.evs:
+                if e.kind == "assign" and e.extra.get("name") in flagvars:
+                    m_ = re.fullmatch(r"\w+ = (\w+)(@after\w+)?", e.text)
+                    if m_ and m_.group(1) not in ("True", "False", "None"):
+                        flagvars.add(m_.group(1))
     # the thread's own stop event is a termination flag too, when the loop condition consults it
     event_flag = "should_keep_running()" in W.raw or "_stopped_event.is_set()" in W.raw
     ctx.check(bool(flagvars) or event_flag, RR, "reader loop condition tests a termination flag", f"loop condition `{W.raw}` tests neither a negated local flag nor the thread's stop event", bf.loc)
@@ -232,6 +316,19 @@ def run(ctx) -> None:
                 got["delete_self"] = True
             if sets_flag and not root_eq:
                 ctx.viol(RR, "reader loop stops only for the root", f"termination flag set on a path that does not compare the record's path with the root ({b.sig()[:120]})", bf.loc)
+    # ... or the hand-over loop is left at the root's marker and the flag is set from that last iteration (spliced into the round's path)
+    for b in W.extra["paths"]:
+        fin = [i for i, e in enumerate(b.evs) if e.kind == "final_iter"]
+        if not fin:
+            continue
+        tail = b.evs[fin[0] :]
+        tc = {e.text: bool(e.extra.get("truth")) for e in tail if e.kind == "cond"}
+        sets_flag = any(e.kind == "assign" and e.extra.get("name") in flagvars and e.text.endswith("= True") for e in tail)
+        root_eq = any(t and "==" in a and "self._inotify.path" in a for a, t in tc.items())
+        if sets_flag and root_eq and any(t and a.endswith(".is_ignored") for a, t in tc.items()):
+            got["ignored"] = True
+        if sets_flag and root_eq and any(t and a.endswith(".is_delete_self") for a, t in tc.items()):
+            got["delete_self"] = True
     ctx.check(got["ignored"], RR, "reader loop terminates on root IN_IGNORED", "no path sets the termination flag for IN_IGNORED on the root", bf.loc)
     ctx.check(got["delete_self"], RR, "reader loop terminates on root IN_DELETE_SELF", "no path sets the termination flag for IN_DELETE_SELF on the root", bf.loc)
 
